@@ -217,6 +217,14 @@ def run(ctx):
                     opname, "/removed-obstacle-left-behind" if stale else ""),
                     "lanelet %d registry %s, inverse of assignments %s" % (
                         la.lanelet_id, sorted(gs), sorted(exp_static[la.lanelet_id])), wit)
+            # the per-time-step query of the registry answers what the registry holds (and the empty set elsewhere)
+            for t_ in sorted(set(la.dynamic_obstacles_on_lanelet) | {-1, 0, 1, 99}):
+                q_ = la.dynamic_obstacle_by_time_step(t_)
+                if set(q_) != set(la.dynamic_obstacles_on_lanelet.get(t_) or ()):
+                    ctx.violation("C07/%s/dynamic_obstacle_by_time_step-differs-from-registry" % opname,
+                                  "lanelet %d t=%d: %s vs %s" % (la.lanelet_id, t_, sorted(q_), sorted(
+                                      la.dynamic_obstacles_on_lanelet.get(t_) or ())), wit)
+                    break
             gd = {t: {x for x in v if x not in center_only} for t, v in la.dynamic_obstacles_on_lanelet.items()}
             gd = {t: v for t, v in gd.items() if v}
             ed = {t: v for t, v in exp_dyn[la.lanelet_id].items() if v}
@@ -306,7 +314,7 @@ def run(ctx):
                     from commonroad.scenario.trajectory import Trajectory
                     sl_ = ob.prediction.trajectory.state_list
                     keep = copy.deepcopy(sl_[: max(1, len(sl_) // 2)])
-                    if (len(trace) + arg) % 2 == 0:
+                    if arg % 2 == 0:   # (by obstacle id: every run sees both variants)
                         ctx.feature("op.shorten-prediction")
                         ob.update_prediction(TrajectoryPrediction(Trajectory(keep[0].time_step, keep), ob.prediction.shape))
                     else:
